@@ -11,6 +11,10 @@ variable {α : Type} [TrigField α]
 
 /-! ### the templates -/
 
+/-- `xrange(0, k)` is `xrange(k)` (keeps the proofs below valid for that harmless spelling) -/
+@[simp] theorem xrangeFrom_zero (k : Int) : xrangeFrom 0 k = xrange k := by
+  simp [xrangeFrom, xrange]
+
 theorem xrange_nat (n : Nat) : xrange (n : Int) = (List.range n).map Int.ofNat := by
   simp [xrange]
 
